@@ -35,6 +35,12 @@ RULE = ("three drivers: (server) C02-style histories on a fresh LocalNode biased
         "payload bytes - sent into an open transfer after 0..2 good segments (the last one would otherwise "
         "complete a valid / a refused write); ccs 7 in the middle of an open transfer (abort must name the "
         "transfer or echo bytes 1..3); too-short payloads accept 0607 0010/0013, too-long ones 0607 0010/0012; "
+        "the dictionary of the serving node re-shaped by the application through its public mapping "
+        "interface AFTER the entries concerned were served (use, re-configure, use again; add, remove, add): access "
+        "type of an array's template member changed after unlisted members were used, an object removed (no such "
+        "index) and a different object - variable / record / array, other data type, other access type - added "
+        "under the same index, a used record member removed (in place / by a new record); every request is judged "
+        "by the dictionary as it is at the request; "
         "(client_api) the same refusals "
         "through RemoteNode.sdo against the library's server, comparing the raised code with the abort "
         "frame on the wire; (decode) a scripted peer aborting with codes {all documented, 0, 1, 2^31, "
@@ -44,6 +50,11 @@ RULE = ("three drivers: (server) C02-style histories on a fresh LocalNode biased
 ASSUMPTIONS = c02.ASSUMPTIONS + [
     "when several refusal conditions apply to one request any of their codes is accepted",
     "block upload is legally downgraded, so only block download counts as unsupported",
+    "when the application removes an object / a record member from the dictionary of a serving node it also "
+    "removes what the node had stored for it (data_store); the refusal conditions are those of the dictionary "
+    "as it is when the request arrives",
+    "a late answer left over from a request that timed out (client one frame behind) is a disturbance of the "
+    "transfer, not a C06 input: it belongs to C07, which catches that class",
 ]
 BUDGET = {"quick": 150, "thorough": 420}
 
@@ -451,11 +462,223 @@ def refusal_matrix():
                                        "block": True})
                     yield dict(cbs, kind="client_api", od=od_cb, ops=ops)
     # unknown / unsupported commands
-    for b0 in list(range(0xE0, 0x100)) + [0xC0, 0xC2, 0xC4, 0xC6]:
+    # (ccs 7: unknown; ccs 6: every block download frame - initiate and the other sub-commands - is unsupported)
+    for b0 in list(range(0xE0, 0x100)) + list(range(0xC0, 0xE0)):
         for first in (True, False):
             fr = bytes([b0]) + struct.pack("<HB", 0x2001, 2) + bytes([9, 0, 0, 0])
             yield {"kind": "server", "od": od, "ops": ([] if first else [ok_before]) + [
                 {"op": "junk", "frame": fr}, ok_after, {"op": "upload", "index": 0x2100, "sub": 0}]}
+
+
+def reshape_matrix(thorough=False):
+    """The object dictionary of the serving node is re-shaped by the application AFTER the node has served
+    requests for the entries concerned (use, re-configure, use again / add, remove, add): every refusal is
+    decided on the dictionary as it is at the request, not as it was when the entry was first addressed."""
+    good = {"kind": "var", "index": 0x2100, "name": "good", "dt": rc.DOMAIN, "access": "rw",
+            "default": b"0123456789"}
+    ok_before = {"op": "upload", "index": 0x2100, "sub": 0}
+    ok_after = {"op": "download", "index": 0x2100, "sub": 0, "data": b"abcdefghijk", "style": "seg_size"}
+
+    def val(dt, k=0):
+        if dt in rc.INTEGERS:
+            return 7 + k
+        if dt in rc.REALS:
+            return 1.5 + k
+        if dt in (rc.VISIBLE_STRING, rc.UNICODE_STRING):
+            return "text-%d" % k
+        return b"bytes-%d" % k
+
+    def payload(dt, k):
+        n = rc.NUMERIC[dt] // 8 if dt in rc.NUMERIC else 9
+        return bytes(range(1 + k, 1 + k + n))
+
+    def use(index, sub, dt, k=0, wrong=True):
+        """read, write a fitting payload (expedited when it fits, else segmented), read back, and - for
+        numeric types - a write of the wrong length in the other style"""
+        d = payload(dt, k)
+        ops = [{"op": "upload", "index": index, "sub": sub},
+               {"op": "download", "index": index, "sub": sub, "data": d,
+                "style": "exp" if 1 <= len(d) <= 4 else "seg_size"},
+               {"op": "upload", "index": index, "sub": sub}]
+        if wrong:
+            ops.append({"op": "download", "index": index, "sub": sub, "data": d + b"\x55",
+                        "style": "seg_nosize" if k % 2 else "seg_size"})
+            ops.append({"op": "download", "index": index, "sub": sub, "data": d[:-1] or b"\x01\x02\x03",
+                        "style": "exp" if 2 <= len(d) <= 5 and d[:-1] else "seg_size"})
+        return ops
+
+    accesses = ("rw", "ro", "wo", "const")
+    # (1) array: the access type of the template (member 1) changes after unlisted members were used
+    for dt in (rc.UNSIGNED16, rc.DOMAIN) + ((rc.INTEGER24, rc.REAL32) if thorough else ()):
+        for a in accesses:
+            for b in accesses:
+                if a == b:
+                    continue
+                od = [good, {"kind": "array", "index": 0x2200, "name": "arr", "members": [
+                    {"sub": 0, "name": "n", "dt": rc.UNSIGNED8, "access": "ro", "default": 8},
+                    {"sub": 1, "name": "el", "dt": dt, "access": a, "default": val(dt)},
+                    {"sub": 3, "name": "el3", "dt": dt, "access": a, "default": val(dt, 1)}]}]
+                yield {"kind": "server", "od": od, "ops": [ok_before] +
+                       use(0x2200, 2, dt, 0) + use(0x2200, 1, dt, 1, wrong=False) + use(0x2200, 3, dt, 2, wrong=False) +
+                       [{"op": "set_access", "index": 0x2200, "sub": 1, "access": b}] +
+                       use(0x2200, 2, dt, 3) + use(0x2200, 5, dt, 4) + use(0x2200, 3, dt, 5, wrong=False) +
+                       [{"op": "set_access", "index": 0x2200, "sub": 1, "access": a}] +
+                       use(0x2200, 2, dt, 6, wrong=False) + use(0x2200, 5, dt, 7, wrong=False) + [ok_after]}
+    # (2) an object is used, removed (every access: no such index), and a different object is added
+    #     under the same index: variable / record / array, other data type, other access type
+    olds = [(rc.UNSIGNED16, "rw"), (rc.DOMAIN, "ro"), (rc.UNSIGNED32, "wo")]
+    news = [(d, a) for d in (rc.UNSIGNED32, rc.UNSIGNED8, rc.DOMAIN, rc.REAL32) for a in accesses]
+    if thorough:
+        olds += [(rc.INTEGER8, "const"), (rc.REAL64, "rw"), (rc.VISIBLE_STRING, "rw")]
+        news += [(d, a) for d in (rc.UNSIGNED16, rc.INTEGER64, rc.OCTET_STRING) for a in accesses]
+
+    def obj(kind, dt, access, tag, subs=(1, 2)):
+        if kind == "var":
+            return {"kind": "var", "index": 0x2200, "name": tag, "dt": dt, "access": access, "default": val(dt)}
+        return {"kind": kind, "index": 0x2200, "name": tag, "members": [
+            {"sub": 0, "name": tag + "n", "dt": rc.UNSIGNED8, "access": "ro", "default": len(subs)}] + [
+            {"sub": s_, "name": f"{tag}m{s_}", "dt": dt, "access": access, "default": val(dt, s_)} for s_ in subs]}
+
+    for (dt1, a1) in olds:
+        for (dt2, a2) in news:
+            for kinds in (("var", "var"), ("record", "record"), ("var", "array"), ("array", "record")):
+                if kinds != ("var", "var") and not thorough and (dt2, a2) not in (
+                        (rc.UNSIGNED32, "ro"), (rc.DOMAIN, "wo"), (rc.UNSIGNED8, "rw"), (rc.REAL32, "const")):
+                    continue
+                sub = 0 if kinds[0] == "var" else 2
+                sub2 = 0 if kinds[1] == "var" else 2
+                ops = [ok_before] + use(0x2200, sub, dt1, 0) + [{"op": "replace", "index": 0x2200}] + \
+                    use(0x2200, sub, dt1, 1, wrong=False) + \
+                    [{"op": "replace", "index": 0x2200, "spec": obj(kinds[1], dt2, a2, "new")}] + \
+                    use(0x2200, sub, dt2, 2) + (use(0x2200, sub2, dt2, 3) if sub2 != sub else []) + \
+                    [{"op": "replace", "index": 0x2200, "spec": obj(kinds[0], dt1, a1, "again")}] + \
+                    use(0x2200, sub, dt1, 4) + [ok_after, ok_before]
+                yield {"kind": "server", "od": [good, obj(kinds[0], dt1, a1, "old")], "ops": ops}
+    # (3) a record loses a member that has been used (in place / by a new record under the same index);
+    #     an array is replaced by a record, so that its unlisted members no longer exist
+    for dt, a in ((rc.UNSIGNED16, "rw"), (rc.DOMAIN, "rw"), (rc.UNSIGNED32, "ro"), (rc.DOMAIN, "wo")):
+        rec = obj("record", dt, a, "rec", subs=(1, 2, 4))
+        yield {"kind": "server", "od": [good, rec], "ops": [ok_before] +
+               use(0x2200, 2, dt, 0) + use(0x2200, 4, dt, 1, wrong=False) +
+               [{"op": "del_member", "index": 0x2200, "sub": 2}] +
+               use(0x2200, 2, dt, 2, wrong=False) + use(0x2200, 4, dt, 3, wrong=False) +
+               [{"op": "del_member", "index": 0x2200, "sub": 4}, {"op": "del_member", "index": 0x2200, "sub": 0}] +
+               use(0x2200, 4, dt, 4, wrong=False) + use(0x2200, 0, rc.UNSIGNED8, 5, wrong=False) +
+               use(0x2200, 1, dt, 6) + [ok_after]}
+        yield {"kind": "server", "od": [good, rec], "ops": [ok_before] +
+               use(0x2200, 2, dt, 0) + use(0x2200, 1, dt, 1, wrong=False) +
+               [{"op": "replace", "index": 0x2200, "spec": obj("record", dt, a, "rec2", subs=(1,))}] +
+               use(0x2200, 2, dt, 2, wrong=False) + use(0x2200, 1, dt, 3) + [ok_after]}
+        arr = obj("array", dt, a, "arr", subs=(1,))
+        yield {"kind": "server", "od": [good, arr], "ops": [ok_before] +
+               use(0x2200, 6, dt, 0) + use(0x2200, 1, dt, 1, wrong=False) +
+               [{"op": "replace", "index": 0x2200, "spec": obj("record", dt, a, "rec3", subs=(1, 2))}] +
+               use(0x2200, 6, dt, 2, wrong=False) + use(0x2200, 2, dt, 3) + [ok_after]}
+
+
+@st.composite
+def reshape_history(draw):
+    """Random dictionaries; one or two objects of them are used, re-shaped by the application (replaced
+    by a drawn object, removed, a record member removed, the access type of a listed entry / an array
+    template changed) and used again, several times; the entries addressed are mostly those addressed
+    before."""
+    od = draw(c02.od_spec(30, min_objs=2, max_objs=5))
+    case = {"kind": "server", "od": od, "source": draw(st.sampled_from(["code", "code", "dcf", "eds"]))}
+    cur = {o["index"]: o for o in od}
+    focus = draw(st.lists(st.sampled_from(sorted(cur)), min_size=1, max_size=2, unique=True))
+    others = [e for e in entries(od) if e[0] not in focus]
+    pool = {i: {0, 1, 2, draw(st.integers(3, 255))} | {m["sub"] for m in cur[i].get("members", [])} for i in focus}
+    ops = []
+    serial = [0]
+
+    def spec_of(index, sub):
+        o = cur.get(index)
+        if o is None:
+            return None
+        if o["kind"] == "var":
+            return o
+        for m_ in o["members"]:
+            if m_["sub"] == sub:
+                return m_
+        if o["kind"] == "array" and sub > 0:
+            return next((m_ for m_ in o["members"] if m_["sub"] == 1), None)
+        return None
+
+    def access_op(index, sub):
+        if cur.get(index, {}).get("kind") == "var":
+            sub = 0      # (a top-level variable ignores the sub-index in this implementation: not "missing")
+        if draw(st.integers(0, 2)) == 0:
+            op = {"op": "upload", "index": index, "sub": sub}
+            if draw(st.integers(0, 5)) == 0:
+                op["blockinit"] = True
+            return op
+        sp = spec_of(index, sub)
+        dt = sp["dt"] if sp else None
+        if dt in rc.NUMERIC:
+            n = rc.NUMERIC[dt] // 8 if draw(st.integers(0, 2)) else draw(st.integers(0, 9))
+        else:
+            n = draw(st.sampled_from([0, 1, 2, 4, 5, 8, 13]))
+        styles = ["seg_size", "seg_nosize"] + (["exp", "exp", "exp"] if 1 <= n <= 4 else [])
+        return {"op": "download", "index": index, "sub": sub, "data": draw(st.binary(min_size=n, max_size=n)),
+                "style": draw(st.sampled_from(styles))}
+
+    def new_object(index):
+        serial[0] += 1
+        tag = f"r{serial[0]}"
+        kind = draw(st.sampled_from(["var", "var", "record", "array"]))
+        if kind == "var":
+            sp = draw(c02.var_spec(tag, 30))
+            sp.update(kind="var", index=index)
+            return sp
+        subs = set(draw(st.lists(st.sampled_from(sorted(pool[index] - {0})), min_size=1, max_size=3)))
+        if kind == "array":
+            subs.add(1)
+        members = [{"sub": 0, "name": tag + "n", "dt": rc.UNSIGNED8, "access": "ro", "default": len(subs)}]
+        for s_ in sorted(subs):
+            ms = draw(c02.var_spec(f"{tag}m{s_}", 30))
+            ms["sub"] = s_
+            members.append(ms)
+        return {"kind": kind, "index": index, "name": tag, "members": members}
+
+    for _phase in range(draw(st.integers(2, 5))):
+        for _ in range(draw(st.integers(1, 5))):
+            if others and draw(st.integers(0, 5)) == 0:
+                e = draw(st.sampled_from(others))
+                ops.append(access_op(e[0], e[1]))
+            else:
+                index = draw(st.sampled_from(focus))
+                ops.append(access_op(index, draw(st.sampled_from(sorted(pool[index])))))
+        index = draw(st.sampled_from(focus))
+        o = cur.get(index)
+        how = draw(st.sampled_from(["replace", "replace", "remove", "del_member", "set_access", "set_access"]))
+        if o is None or how == "replace":
+            sp = new_object(index)
+            cur[index] = sp
+            ops.append({"op": "replace", "index": index, "spec": sp})
+        elif how == "remove":
+            del cur[index]
+            ops.append({"op": "replace", "index": index})
+        elif how == "del_member" and o["kind"] == "record" and o["members"]:
+            m_ = draw(st.sampled_from(o["members"]))
+            cur[index] = dict(o, members=[x for x in o["members"] if x["sub"] != m_["sub"]])
+            ops.append({"op": "del_member", "index": index, "sub": m_["sub"]})
+        else:
+            # access type of a listed entry; for an array preferably of the template (member 1)
+            subs = [0] if o["kind"] == "var" else [x["sub"] for x in o["members"]]
+            if not subs:
+                continue
+            sub = 1 if o["kind"] == "array" and 1 in subs and draw(st.booleans()) else draw(st.sampled_from(subs))
+            acc = draw(st.sampled_from(["rw", "ro", "wo", "const"]))
+            if o["kind"] == "var":
+                cur[index] = dict(o, access=acc)
+            else:
+                cur[index] = dict(o, members=[dict(x, access=acc) if x["sub"] == sub else x for x in o["members"]])
+            ops.append({"op": "set_access", "index": index, "sub": sub, "access": acc})
+    for index in focus:
+        for _ in range(draw(st.integers(1, 4))):
+            ops.append(access_op(index, draw(st.sampled_from(sorted(pool[index])))))
+    case["ops"] = ops
+    return case
 
 
 def decode_codes():
@@ -553,11 +776,15 @@ def search(ctx):
     thorough = ctx.tier == "thorough"
     ctx.enumerate(refusal_matrix(), "numeric types x lengths 0..9 x access x style x placement; missing "
                                     "index/sub; toggle; unknown commands")
+    ctx.enumerate(reshape_matrix(thorough), "dictionary re-shaped while serving: array template access changed after "
+                                            "members were used; object used / removed / replaced by a different "
+                                            "one; record member removed")
     ctx.enumerate(client_matrix(), "client API: numeric types x lengths 0..9 x access x forced segmentation")
     ctx.enumerate(decode_cases(decode_codes()), "documented + boundary abort codes x protocol step")
     ctx.hypothesis(c02.history(200, refusal_bias=True).map(lambda c: dict(c, kind="server")),
                    10000 if thorough else 1000, salt=1)
     ctx.hypothesis(client_api_case(), 8000 if thorough else 800, salt=2)
+    ctx.hypothesis(reshape_history(), 4000 if thorough else 400, salt=4)
     codes = st.integers(0, (1 << 32) - 1)
     ctx.hypothesis(st.builds(
         lambda code, where, n, k, style: {"kind": "decode", "code": code, "where": where, "length": n,
